@@ -19,7 +19,7 @@ func joinStats(c QueryCase, res model.Result) (nullKey, dupBoth, unmatchedOuter 
 	keyDup := func(t gen.TableSpec) bool {
 		seen := map[string]bool{}
 		for _, r := range t.Rows {
-			k := r[0].String()
+			k := CanonJV(r[0]) // by value: two spellings of one instant are one key
 			if r[0].K != "null" && seen[k] {
 				return true
 			}
@@ -130,9 +130,9 @@ func c02PropImpl(rec *ev.Rec, c QueryCase) ev.Outcome {
 
 func TestC02(t *testing.T) {
 	r := ev.New("C02", "exploration",
-		"2-3 generated CSV/JSON tables whose first column is a join key from a 3-value pool (NULL and duplicate keys frequent; one table occasionally 63-200 rows so either input may finish first) x "+
+		"2-3 generated CSV/JSON tables whose first column is a join key from a 3-value pool (Int/Float/String, or - a fifth of the cases, all tables CSV - Time: three instants written in six zone spellings, so equal instants with different texts meet across the tables; other CSV columns are Time columns now and then; NULL and duplicate keys frequent; one table occasionally 63-200 rows so either input may finish first) x "+
 			"inner JOIN (equi / theta / mixed ON, 1-3 terms, optional one-sided conjunct), LOOKUP JOIN, LEFT/RIGHT/OUTER JOIN (conjunctions of cross-table equalities, incl. key arithmetic), chains of two joins, optional WHERE / DISTINCT / ORDER BY, "+
-			"run through the real binary optimised and with --optimize=false; oracle = nested-loop join in the reference evaluator (NULL never matches, every unmatched outer row once, NULL padded), multiset comparison. "+
+			"run through the real binary optimised and with --optimize=false; oracle = nested-loop join in the reference evaluator (NULL never matches, every unmatched outer row once, NULL padded; Time keys match as instants), multiset comparison (printed times parsed to instants). "+
 			"non-trivial: both first inputs non-empty and (a NULL key, duplicate keys on >=2 sides, or an unmatched row on an outer side). distinct=(SQL, files, mode)",
 		"outer-join predicates are restricted to the supported form (anything else is a typecheck error by design)")
 	ev.Check(t, r, "join_vs_model", ev.N(8000, 120000), func(t *rapid.T) QueryCase {
@@ -140,7 +140,7 @@ func TestC02(t *testing.T) {
 		if rapid.IntRange(0, 3).Draw(t, "three") == 0 {
 			n = 3
 		}
-		tables := gen.JoinTables(t, n)
+		tables := gen.JoinTablesOpt(t, n, true)
 		q := gen.JoinQuery(t, tables, gen.JoinOpts{ExprDepth: 2}, "q")
 		return QueryCase{Tables: tables, Q: q, SQL: q.SQL(), Mode: "json", NoOpt: rapid.IntRange(0, 2).Draw(t, "noopt") == 0}
 	}, c02Prop(r))
